@@ -1,1 +1,38 @@
-From SF Require Import Base.Prelude Properties.C06.
+(* Pinned statements of C06: re-checked on every run. *)
+From SF Require Import Base.Prelude Gen.Generated Unsized.Types Unsized.Parse Unsized.Machine Unsized.Ops Unsized.Proofs.EncodeParse Unsized.Proofs.Mem Unsized.Proofs.Notify Unsized.Proofs.Flat Properties.C06.
+
+Check (C06_flat_growth_refused_is_clean :
+  forall tsA tsB vsA vsB c lw items, length tsA = length vsA -> forall s top idx new,
+    Rep (tsA ++ TList c lw :: tsB) (vsA ++ VList items :: vsB) s top ->
+    0 <= idx <= zlen items -> zlen items + zlen new < 256 ^ Z.of_nat lw -> new <> [] ->
+    (m_refuse s = 1 \/ m_cap s < m_len s + Z.of_nat (fsize c) * zlen new) ->
+    list_insert (TStruct (tsA ++ TList c lw :: tsB)) s top [PF (length tsA)] idx new = Err E_REALLOC).
+Check (C06_flat_index_error_is_clean :
+  forall tsA tsB vsA vsB c lw items, length tsA = length vsA -> forall s top idx new,
+    Rep (tsA ++ TList c lw :: tsB) (vsA ++ VList items :: vsB) s top -> zlen items < idx ->
+    list_insert (TStruct (tsA ++ TList c lw :: tsB)) s top [PF (length tsA)] idx new = Err E_INDEX).
+Check (C06_flat_prefix_overflow_is_clean :
+  forall tsA tsB vsA vsB c lw items, length tsA = length vsA -> forall s top idx new,
+    Rep (tsA ++ TList c lw :: tsB) (vsA ++ VList items :: vsB) s top -> idx <= zlen items ->
+    256 ^ Z.of_nat lw <= zlen items + zlen new ->
+    list_insert (TStruct (tsA ++ TList c lw :: tsB)) s top [PF (length tsA)] idx new = Err E_TOPRIM).
+Check (C06_flat_remove_errors_are_clean :
+  forall tsA tsB vsA vsB c lw items, length tsA = length vsA -> forall s top st en,
+    Rep (tsA ++ TList c lw :: tsB) (vsA ++ VList items :: vsB) s top ->
+    (en < st -> list_remove (TStruct (tsA ++ TList c lw :: tsB)) s top [PF (length tsA)] st en = Err E_RANGE) /\
+    (st <= en -> zlen items < en -> list_remove (TStruct (tsA ++ TList c lw :: tsB)) s top [PF (length tsA)] st en = Err E_INDEX)).
+Check (C06_flat_continue_after_failure :
+  forall ts vs s top o c h vs',
+    Rep ts vs s top -> m_refuse s <> 1 -> mstep ts s top o = Err c ->
+    orun (m_cap s) ts vs h = Some vs' ->
+    ztake (m_len s) (m_mem s) = encode (TStruct ts) (VStruct vs) /\
+    exists s', mrun ts s top h = Ok (s', PStruct (lay ts vs' 0)) /\ Rep ts vs' s' (PStruct (lay ts vs' 0))).
+Check (C06_realloc_refusal_precedes_writes :
+  forall s n, m_len s < n -> m_refuse s = 1 -> realloc s n = Err E_REALLOC).
+
+Print Assumptions C06_flat_growth_refused_is_clean.
+Print Assumptions C06_flat_index_error_is_clean.
+Print Assumptions C06_flat_prefix_overflow_is_clean.
+Print Assumptions C06_flat_remove_errors_are_clean.
+Print Assumptions C06_flat_continue_after_failure.
+Print Assumptions C06_realloc_refusal_precedes_writes.
